@@ -13,6 +13,7 @@ Registries are Python dicts (`Rpft.Dict`).  Core Lean only.
 import Rpft.Str
 import Rpft.Dict
 import Rpft.DataOps
+import Rpft.Cell
 namespace Rpft.Index
 open Rpft
 
@@ -290,5 +291,47 @@ def allCampaigns (st : St) : List (Str × Campaign) := st.campaigns
 
 /-- `parse_all_triggers`: provenance of each trigger sheet in registry order -/
 def allTriggers (st : St) : List (Str × Nat) := st.triggers
+
+/-! ### reading the raw cells of an index row
+
+`SheetParser.parse_all` hands every row of the index to `RowParser(ContentIndexRowModel,
+CellParser())`: a `str` field is `parse_as_string(cell)` = `str(cell).strip()`, a `List[str]`
+field is `parse(cell)` = `split_into_lists(cell.strip())` (pieces between `;`, each stripped and
+unescaped; a blank cell is `[]`, a cell without `;` the one-entry list).  What the processing
+compares (`row.status == "draft"`, `row.type == …`, the names) is this TEXT of the cell, never
+the raw content: surrounding whitespace of any kind `str.strip()` removes does not count. -/
+
+/-- the cells of an index row as the sheet holds them -/
+structure RawIndexRow where
+  ty : Str := []
+  sheetName : Str := []        -- the `sheet_name` cell
+  newName : Str := []
+  dataSheet : Str := []
+  dataRowId : Str := []
+  group : Str := []
+  status : Str := []
+  tags : List Str := []        -- the `tags.1`, `tags.2`, … cells
+  tplArgs : Nat := 0
+deriving DecidableEq, Repr
+
+/-- `parse_as_string` of a cell without templates -/
+def cellText (s : Str) : Str := strip pyWs s
+
+/-- the value of a `List[str]` field (`assign_value`, `is_list_type` branch); a piece that is itself
+a list (a cell with `|`, never shipped by the harness) is read as its `;`-joined text -/
+def namesOfCell : Cell.Cell → List Str
+  | .atom t => if t = [] then [] else [t]
+  | .list es => es.map (fun e => match e with
+      | .atom t => t
+      | .list xs => joinWith [Cell.sep1] xs)
+
+/-- `parse(cell)` for a `List[str]` field -/
+def cellNames (s : Str) : List Str := namesOfCell (Cell.splitIntoLists pyWs (strip pyWs s))
+
+/-- the parsed row of the raw cells -/
+def RawIndexRow.read (r : RawIndexRow) : IndexRow :=
+  { ty := cellText r.ty, sheetNames := cellNames r.sheetName, newName := cellText r.newName,
+    dataSheet := cellText r.dataSheet, dataRowId := cellText r.dataRowId, group := cellText r.group,
+    status := cellText r.status, tags := r.tags.map cellText, tplArgs := r.tplArgs }
 
 end Rpft.Index
